@@ -63,6 +63,8 @@ TYPED = {
 
 def run(ctx):
     rng = ctx.rng
+    from gen.util import json_lexical_corpus
+    ctx.json_lexical(json_lexical_corpus(rng, 120 if ctx.tier != 'thorough' else 1200))
     thorough = ctx.tier == "thorough"
     scale = 1 if not thorough else 8
     calls = []  # (op, args..., cls)
